@@ -2309,6 +2309,8 @@ def make_builtins(I):
 
     def _next(I, st, a, k):
         v = a[0]
+        if isinstance(v, Ref) and st.get(v).kind == "list" and getattr_py(st.get(v), "__class__").__name__ != "IterE":
+            raise Unsupported("next() on something that is not an iterator object (TypeError in Python for a list)")
         if isinstance(v, Ref) and st.get(v).kind == "list":
             items = st.get(v).items
             if items:
